@@ -7,22 +7,22 @@ func c08producer(idx int) { producerLemma(idx, "C08", false) }
 func c12producer(idx int) { producerLemma(idx, "C12", false) }
 func c14producer(idx int) { producerLemma(idx, "C14", true) }
 func c15producer(idx int) { producerLemma(idx, "C15", false) }
-func c05replace(idx int) { replaceLemma(idx, "C05") }
-func c06replace(idx int) { replaceLemma(idx, "C06") }
-func c07replace(idx int) { replaceLemma(idx, "C07") }
-func c09replace(idx int) { replaceLemma(idx, "C09") }
-func c12replace(idx int) { replaceLemma(idx, "C12") }
-func c15replace(idx int) { replaceLemma(idx, "C15") }
-func c11admin(idx int) { adminLemma(idx, "C11") }
-func c12admin(idx int) { adminLemma(idx, "C12") }
-func c13admin(idx int) { adminLemma(idx, "C13") }
-func c15admin(idx int) { adminLemma(idx, "C15") }
-func c19admin(idx int) { adminLemma(idx, "C19") }
-func c11frame(idx int) { frameLemma(idx, "C11") }
-func c12frame(idx int) { frameLemma(idx, "C12") }
-func c13frame(idx int) { frameLemma(idx, "C13") }
-func c19frame(idx int) { frameLemma(idx, "C19") }
-func c07frame(idx int) { frameLemma(idx, "C07") }
-func c02frame(idx int) { frameLemma(idx, "C02") }
-func c04frame(idx int) { frameLemma(idx, "C04") }
-func c05frame(idx int) { frameLemma(idx, "C05") }
+func c05replace(idx int)  { replaceLemma(idx, "C05") }
+func c06replace(idx int)  { replaceLemma(idx, "C06") }
+func c07replace(idx int)  { replaceLemma(idx, "C07") }
+func c09replace(idx int)  { replaceLemma(idx, "C09") }
+func c12replace(idx int)  { replaceLemma(idx, "C12") }
+func c15replace(idx int)  { replaceLemma(idx, "C15") }
+func c11admin(idx int)    { adminLemma(idx, "C11") }
+func c12admin(idx int)    { adminLemma(idx, "C12") }
+func c13admin(idx int)    { adminLemma(idx, "C13") }
+func c15admin(idx int)    { adminLemma(idx, "C15") }
+func c19admin(idx int)    { adminLemma(idx, "C19") }
+func c11frame(idx int)    { frameLemma(idx, "C11") }
+func c12frame(idx int)    { frameLemma(idx, "C12") }
+func c13frame(idx int)    { frameLemma(idx, "C13") }
+func c19frame(idx int)    { frameLemma(idx, "C19") }
+func c07frame(idx int)    { frameLemma(idx, "C07") }
+func c02frame(idx int)    { frameLemma(idx, "C02") }
+func c04frame(idx int)    { frameLemma(idx, "C04") }
+func c05frame(idx int)    { frameLemma(idx, "C05") }
